@@ -356,10 +356,28 @@ func (fx *FuncExec) callWithContract(ps *pathState, x *ssa.Call, callee *ssa.Fun
 		}
 	}
 	env = &SpecEnv{st: st, old: pre, vars: vars, fx: envFx}
+	assumed := 0
 	for _, cl := range con.Ensures {
+		// clauses about the callee's own ghost call logs say nothing the caller can use: evaluated here they
+		// would read the caller's logs (and could make the path infeasible)
+		if strings.Contains(cl.Text, "ncalls(") || strings.Contains(cl.Text, "calllog(") || strings.Contains(cl.Text, "resultof(") {
+			continue
+		}
 		t := env.boolTerm(cl.Expr)
 		fx.noteSpecErr(env, cl)
 		st.assume(t)
+		assumed++
+	}
+	// vacuity guard: the path must still be feasible after the callee's postconditions were assumed
+	// (a contradictory or mis-evaluated contract would make everything after the call pass trivially)
+	if assumed > 0 && fx.con != nil && site != "" {
+		if fx.coverCalls == nil {
+			fx.coverCalls = map[string]int{}
+		}
+		if fx.coverCalls[site] < 2 {
+			fx.coverCalls[site]++
+			fx.addObl("cover:call "+site, "cover", fx.con.Prop, "the path is feasible after assuming the callee's postconditions", fx.con.Line, true, st, tTrue, ps.trail)
+		}
 	}
 	return result
 }
